@@ -20,6 +20,8 @@ struct Block
 	size_t size;
 	uint64_t id;
 	int freedBy; // -1 live
+	uint32_t lastAcc[HB_MAXT]; // per thread: its clock component at its last access to this block
+	uint8_t lastWrite[HB_MAXT];
 };
 static std::map<uintptr_t, Block> live, freed;
 static uintptr_t freedLo = 0, freedHi = 0;
@@ -52,8 +54,26 @@ void heapRunEnd()
 	live.clear(); // survivors become ordinary untracked blocks
 }
 
+static void noteAccess(uintptr_t addr, bool write)
+{
+	if (live.empty() || !self || self->id >= HB_MAXT)
+		return;
+	RtScope r;
+	auto it = live.upper_bound(addr);
+	if (it == live.begin())
+		return;
+	--it;
+	if (addr < it->first + it->second.size)
+	{
+		it->second.lastAcc[self->id] = self->vc[self->id];
+		it->second.lastWrite[self->id] = write;
+	}
+}
+
 bool heapCheckAccess(uintptr_t addr, size_t size, bool write)
 {
+	if (g_hbOn)
+		noteAccess(addr, write);
 	if (addr + size <= freedLo || addr >= freedHi)
 		return true;
 	RtScope r;
@@ -76,7 +96,11 @@ static void* trackedMalloc(size_t n)
 	if (p && tracking && self && !inRt)
 	{
 		RtScope r;
-		live[(uintptr_t)p] = Block{n, ++allocId, -1};
+		Block b{};
+		b.size = n;
+		b.id = ++allocId;
+		b.freedBy = -1;
+		live[(uintptr_t)p] = b;
 	}
 	return p;
 }
@@ -107,6 +131,11 @@ static void trackedFree(void* p)
 		return;
 	}
 	b.freedBy = tid();
+	if (g_hbOn && self->id < HB_MAXT)
+		for (int t = 0; t < HB_MAXT; t++)
+			if (t != self->id && b.lastAcc[t] > self->vc[t])
+				fatal("memory", "destruction_race", "thread %d frees block #%llu (size %zu) while the last %s of it by thread %d is not ordered before the free (no happens-before edge: the reference-count operations involved do not synchronise)",
+				      self->id, (unsigned long long)b.id, b.size, b.lastWrite[t] ? "write" : "read", t);
 	memset(p, 0xDD, b.size);
 	freed[(uintptr_t)p] = b;
 	if (freedLo == 0 || (uintptr_t)p < freedLo)
